@@ -108,11 +108,17 @@ fn compile_perm_check(buffer: &mut String, check: &PermCheck) {
     buffer.push_str(&code)
 }
 
-fn literal(special: &FormatSpecial) -> String {
-    match special {
+/// Text that `format` must print as it stands: `~` is its directive character, and the
+/// template is written inside a Scheme string literal
+fn verbatim(text: &str) -> String {
+    scheme_escape(&text.replace('~', "~~"))
+}
+
+fn literal(special: &FormatSpecial) -> CResult<String> {
+    Ok(match special {
         FormatSpecial::Alarm => "\\a".to_string(),
-        FormatSpecial::Ascii(val) => format!("{}", char::from_u32(*val as u32).unwrap_or('0')),
-        FormatSpecial::Backslash => "\\".to_string(),
+        FormatSpecial::Ascii(val) => verbatim(&char::from_u32(*val as u32).unwrap_or('0').to_string()),
+        FormatSpecial::Backslash => verbatim("\\"),
         FormatSpecial::Backspace => "\\b".to_string(),
         FormatSpecial::CarriageReturn => "\\r".to_string(),
         FormatSpecial::Clear => "\\c".to_string(),
@@ -121,7 +127,7 @@ fn literal(special: &FormatSpecial) -> String {
         FormatSpecial::Null => "\\0".to_string(),
         FormatSpecial::TabHorizontal => "\\t".to_string(),
         FormatSpecial::TabVertical => "\\v".to_string(),
-    }
+    })
 }
 
 fn placeholder(field: &FormatField) -> CResult<&'static str> {
@@ -243,9 +249,9 @@ impl TargetScheme for Vec<FormatElement> {
         let template = self
             .iter()
             .map(|el| match el {
-                FormatElement::Literal(s) => Ok(s.clone()),
+                FormatElement::Literal(s) => Ok(verbatim(s)),
                 FormatElement::Field(f) => placeholder(f).map(|s| s.to_string()),
-                FormatElement::Special(v) => Ok(literal(v)),
+                FormatElement::Special(v) => literal(v),
             })
             .collect::<CResult<Vec<String>>>()?
             .join("");
